@@ -132,7 +132,7 @@ def ob_utilities_list(h):
     was_active = [r.active for r in recs]
     h.stub(dp, "get_value", lambda v: v)
     coll, _ = dp._create_utilities_list(recs, utility_type=side)
-    out = list(coll._streams.values())
+    out = list(coll)          # the order in which every consumer iterates the collection
     want = [r for r, a in zip(recs, was_active) if a and r.type in ("Both", side)]
     h.check("one_stream_per_active_utility_of_that_side", len(out) == len(want))
     for s in out:
@@ -148,7 +148,7 @@ def ob_utilities_list(h):
         a, b = want[0], want[1]
         first_is_a = out[0].name == a.name
         hi_first = (a.t_supply > b.t_supply) if first_is_a else (b.t_supply > a.t_supply)
-        h.check("ordered_by_supply_temperature", hi_first if side == "Hot" else Not(hi_first))
+        h.check("iterated_hottest_first", out[0].t_supply >= out[1].t_supply)
 
 
 # ---- WINDOW -------------------------------------------------------------------------------------------
@@ -224,10 +224,10 @@ def _utilities(h, k, hot_side, T, Hs, last_kind):
         else:
             s = Stream(f"CU{i}", ts, ts + g, dt_cont=dt, heat_flow=0.0, is_process_stream=False)
         us.append(s)
-    # order: hot utilities hottest first, cold utilities coldest first
+    # order: utility collections iterate by DESCENDING supply temperature on both sides (C03.utilities_list.b); the assignment walks the
+    # hot list backwards and the cold list forwards, i.e. lowest grade first; the utility served last is the hottest hot / coldest cold one
     for a, b in zip(us, us[1:]):
-        h.assume(a.t_supply > b.t_supply if hot_side else a.t_supply < b.t_supply)
-    # the utility served last (hottest hot / coldest cold... the list is walked reversed for hot, forward for cold)
+        h.assume(a.t_supply > b.t_supply)
     last = us[0] if hot_side else us[-1]
     if hot_side:
         dem_top = T[0]
